@@ -11,6 +11,7 @@ import Dhcp.Label
     labenc  <names>            NewLabels+Labels=…+ToBytes -> ok <hex>
     labre   <hex>              FromBytes then ToBytes     -> ok <hex> | err | panic
     labedit <hex> <names>      FromBytes, Labels = names, ToBytes -> ok <hex> | err | panic
+    labseq  <hex|new> <op>…    edit/ToBytes history on one label set (see below)
 -/
 namespace Dhcp.Driver
 open Dhcp Dhcp.Label
@@ -46,6 +47,32 @@ def stepLabel (op : String) (args : List String) : Option String :=
     let b ← unhex h
     let ns ← parseNames s
     pure (showResL hex ((Labels.fromBytes (some b)).bind (fun l => ({ l with labels := ns }).toBytesR)))
+  | "labseq", h :: ops => do
+    -- a history of caller edits of the public `Labels` slice interleaved with
+    -- `ToBytes` calls on ONE label set: `t` = ToBytes, `s:<i>:<name>` = in-place
+    -- element write, `a:<name>` = append, `r:<names>` = replace the slice,
+    -- `d:<i>` = delete element i. Output: the bytes of every `t`, in order.
+    let l0 ← (if h == "new" then some (Res.ok Labels.new) else (unhex h).map (fun b => Labels.fromBytes (some b)))
+    match l0 with
+    | .err => pure "err"
+    | .panic => pure "panic"
+    | .ok l0 =>
+      let step (st : Option (Labels × List String)) (op : String) : Option (Labels × List String) := do
+        let (l, outs) ← st
+        match op.splitOn ":" with
+        | ["t"] => pure (l, outs ++ [showResL hex l.toBytesR])
+        | ["s", i, n] => do
+          let i ← i.toNat?
+          let n ← parseName n
+          pure ({ l with labels := if i < l.labels.length then l.labels.set i n else l.labels }, outs)
+        | ["a", n] => do pure ({ l with labels := l.labels ++ [← parseName n] }, outs)
+        | ["r", ns] => do pure ({ l with labels := ← parseNames ns }, outs)
+        | ["d", i] => do
+          let i ← i.toNat?
+          pure ({ l with labels := l.labels.eraseIdx i }, outs)
+        | _ => none
+      let (_, outs) ← ops.foldl step (some (l0, []))
+      pure ("ok " ++ " ".intercalate outs)
   | _, _ => none
 
 end Dhcp.Driver
